@@ -1,6 +1,7 @@
 import QRV.Model.QR
 import QRV.Model.Micro
 import QRV.Model.RMQR
+import QRV.Lemmas.NewDP
 /-
 C04 — New preserves the payload and produces valid segments.
 
@@ -18,58 +19,80 @@ def classOK (idx ch : Nat) : Prop :=
 /-- `mergeSegs` only groups: concatenation of the data is the concatenation of the pieces -/
 theorem mergeSegs_concat (ml : List Nat) (pieces : List (Nat × List Nat)) :
     (mergeSegs ml pieces).flatMap (·.data) = pieces.flatMap (·.2) := by
-  sorry
+  exact Lemmas.NewDP.mergeSegs_concat ml pieces
 
 /-- `mergeSegs` of non-empty pieces has no empty segment -/
 theorem mergeSegs_nonempty (ml : List Nat) (pieces : List (Nat × List Nat)) (h : ∀ p ∈ pieces, p.2 ≠ []) :
     ∀ s ∈ mergeSegs ml pieces, s.data ≠ [] := by
-  sorry
+  exact Lemmas.NewDP.mergeSegs_nonempty ml pieces h
 
 /-- every segment of `mergeSegs` carries the mode of the pieces it was built from, and all its bytes
 come from pieces of that mode -/
 theorem mergeSegs_modes (ml : List Nat) (pieces : List (Nat × List Nat)) (P : Nat → Nat → Prop)
     (h : ∀ p ∈ pieces, ∀ b ∈ p.2, P (ml[p.1]?.getD 0) b) :
     ∀ s ∈ mergeSegs ml pieces, ∀ b ∈ s.data, P s.mode b := by
-  sorry
+  exact Lemmas.NewDP.mergeSegs_modes ml pieces P h
 
 /-- non-kanji DP: the segments concatenate to the payload, byte for byte -/
 theorem newQR_concat (hN hA hB : Nat) (ml : List Nat) (data : Array Nat) (hne : data.size ≠ 0) :
     (newQRSegs hN hA hB ml data).flatMap (·.data) = data.toList := by
-  sorry
+  exact Lemmas.NewDP.newQR_concat' hN hA hB ml data
 
 /-- non-kanji DP: no segment is empty -/
 theorem newQR_nonempty (hN hA hB : Nat) (ml : List Nat) (data : Array Nat) (hne : data.size ≠ 0) :
     ∀ s ∈ newQRSegs hN hA hB ml data, s.data ≠ [] := by
-  sorry
+  exact Lemmas.NewDP.newQR_nonempty' hN hA hB ml data
 
 /-- non-kanji DP with the QR mode numbers: every byte of a numeric segment is a digit, every byte
-of an alphanumeric segment is in the 45-character set, and only the three modes occur -/
-theorem newQR_valid_QR (data : Array Nat) (hne : data.size ≠ 0) :
+of an alphanumeric segment is in the 45-character set, and only the three modes occur.
+
+CORRECTED STATEMENT: the hypothesis `hsz` was added.  Without a bound on the payload length the
+statement is false: costs are capped at `inf = 2^63 - 1 - 2^18` (`trans` starts from
+`minCost := inf, lastMode := 0` and only takes strictly smaller costs), every character costs at
+least 20, so for any payload of `N ≥ inf / 20` bytes (about 4.6e17 bytes; not evaluable) every
+entry of the last row is `{cost := inf, lastMode := 0}`, the back-tracking reads `lastMode = 0`
+and the result has a segment of mode `modeList[0] = 0`.  What the proof needs is that the all-bytes
+path stays below `inf`: `(4 + 16) * 6 + 48 * data.size < inf`, which `data.size < 2 ^ 56` gives.
+The unbounded statement is refuted formally (payload of `2 ^ 60` bytes, never evaluated) in
+`Lemmas.NewDP.newQR_valid_QR_unbounded_false`. -/
+theorem newQR_valid_QR (data : Array Nat) (hne : data.size ≠ 0) (hsz : data.size < 2 ^ 56) :
     ∀ s ∈ newQRSegs ((4 + 14) * 6) ((4 + 13) * 6) ((4 + 16) * 6) [0, 1, 2, 4] data,
       (s.mode = 1 ∨ s.mode = 2 ∨ s.mode = 4) ∧
       (s.mode = 1 → ∀ b ∈ s.data, isNumeric b = true) ∧
       (s.mode = 2 → ∀ b ∈ s.data, isAlphanumeric b = true) := by
-  sorry
+  exact Lemmas.NewDP.newQR_valid_QR' data hne hsz
 
 /-- kanji DP: when it returns, the segments concatenate to the payload and none is empty
 (the back-tracking loop of the Go code has no bound; in the model it has fuel and running out is a
-panic outcome, so this also needs that outcome not to occur) -/
-theorem newKanji_concat (ml : List Nat) (data : Array Nat) (hne : data.size ≠ 0) (segs : List Segment)
-    (h : newKanjiSegs ml data = .ok segs) :
+panic outcome, so this also needs that outcome not to occur).
+
+CORRECTED STATEMENT: the hypothesis `hsz` was added.  Without a bound on the payload length the
+statement is false: for a payload of `N ≥ inf / 48` bytes that pass no class test, such as 0x80 or
+lower-case letters (about 1.9e17 bytes; not evaluable), the cost of the only finite path, all
+bytes, reaches `inf`; in the last row the entries of numeric, alphanumeric and kanji are
+`{cost := inf, lastMode := 0, data := [] }`, the
+strict comparison keeps `bestMode = 1`, whose entry has `lastMode = 0`, so the back-tracking stops
+at once and the result is the single segment `{ mode := modeList[1], data := [] }`: it is empty and
+does not concatenate to the payload.  What the proof needs is that the all-bytes path stays below
+`inf`: `120 + 48 * data.size < inf`, which `data.size < 2 ^ 56` gives.
+The unbounded statement is refuted formally (`2 ^ 60` bytes 0x80, never evaluated) in
+`Lemmas.NewDP.newKanji_concat_unbounded_false`. -/
+theorem newKanji_concat (ml : List Nat) (data : Array Nat) (hne : data.size ≠ 0) (hsz : data.size < 2 ^ 56)
+    (segs : List Segment) (h : newKanjiSegs ml data = .ok segs) :
     segs.flatMap (·.data) = data.toList ∧ ∀ s ∈ segs, s.data ≠ [] := by
-  sorry
+  exact Lemmas.NewDP.newKanji_concat' ml data hne hsz segs h
 
 /-- kanji DP never panics: the back-tracking loop terminates within its fuel and never indexes out
 of range -/
 theorem newKanji_no_panic (ml : List Nat) (data : Array Nat) (hne : data.size ≠ 0) :
     (newKanjiSegs ml data).isPanic = false := by
-  sorry
+  exact Lemmas.NewDP.newKanji_no_panic' ml data
 
 /-- QR `New` without kanji: what it returns concatenates to the payload at the requested level -/
 theorem qr_new_preserves_payload (level : Int) (data : List Nat) (q : QRCode)
     (h : Model.QR.new level false data = .ok q) :
     q.segments.flatMap (·.data) = data ∧ q.level = level ∧ ∀ s ∈ q.segments, s.data ≠ [] := by
-  sorry
+  exact Lemmas.NewDP.qr_new_preserves_payload level data q h
 
 /-! non-vacuity -/
 example : newQRSegs ((4 + 14) * 6) ((4 + 13) * 6) ((4 + 16) * 6) [0, 1, 2, 4] #[0x31, 0x32, 0x41, 0x61]
